@@ -84,10 +84,34 @@ def make_pair(utype, verdict, r, keys):
     doc = {"type": "pkg_mgr", "info": {"name": "x", "n": r.randint(0, 99)}}
     un = {"signatures": rsign(doc, [2] if verdict == "SignatureError" else [3]), "signed": doc}
     if verdict == "UnknownRoleError":
-        trusted["signed"]["delegations"] = {"other_role": metadata.rule([pub[3]], 1)}
+        x = r.randrange(3)
+        if x == 0:
+            trusted["signed"]["delegations"] = {"other_role": metadata.rule([pub[3]], 1)}
+        elif x == 1:
+            # the declared type is a near-miss spelling of a role that IS delegated, and the signatures would satisfy that role
+            doc["type"] = near_miss("pkg_mgr", r)
+            un = {"signatures": rsign(doc, [3]), "signed": doc}
+        else:
+            # ... or of "root" / "key_mgr", with everything else a valid next root / key manager document
+            role = r.choice(["root", "key_mgr"])
+            if role == "root":
+                doc = metadata.delegating_doc("root", 2, {"root": metadata.rule([pub[1]], 1), "key_mgr": metadata.rule([pub[2]], 1)}, r)
+                doc["type"] = near_miss("root", r)
+                return {"signatures": gsign(root1, [1]), "signed": root1}, {"signatures": gsign(doc, [1]), "signed": doc}
+            doc = metadata.delegating_doc("key_mgr", 1, {"pkg_mgr": metadata.rule([pub[3]], 1)}, r)
+            doc["type"] = near_miss("key_mgr", r)
+            return {"signatures": gsign(root1, [1]), "signed": root1}, {"signatures": rsign(doc, [2]), "signed": doc}
     if verdict in ("TypeError", "ValueError"):
         trusted["signed"]["type"] = "unsupported"
     return trusted, un
+
+
+def near_miss(role, r):
+    """Another string that a lenient comparison (case folding, Unicode compatibility normalisation, trimming) would equate with role."""
+    fw = lambda ch: chr(ord(ch) + 0xFEE0) if "!" <= ch <= "~" else ch      # noqa: E731  full-width form
+    i = r.randrange(len(role))
+    return r.choice([role[:i] + fw(role[i]) + role[i + 1:], "".join(fw(c) for c in role), role.upper(), role.capitalize(), role + " ", " " + role,
+                     role + "\u200b", role.replace("_", "\uff3f") if "_" in role else role + "\u00a0", role.replace("r", "\u24e1", 1), role + "\x00"])
 
 
 def library_verdict(tpath, upath):
